@@ -70,6 +70,8 @@ pub fn next_up(x: Float) -> Float {
 pub fn run(seed: u64, n: usize, out: &str) {
     let mut r = Rng::new(seed ^ 0xC07);
     let mut sink = Sink::new(out, "C07", 250);
+    #[cfg(feature = "float")]
+    { sink.runner = "C07f32".to_string(); }
     let mut i = 0usize;
     while sink.len() < n {
         let op = i % OPS.len();
